@@ -9,6 +9,10 @@ import (
 	"github.com/spf13/cobra"
 )
 
+// Mean of the branch lengths of the generated star trees. It was read from the
+// variable of the option --mean of the command "brlen setrand" (default 0.1)
+const startreeLengthMean = 0.1
+
 func starTree(nbtrees int, nbtips int, output string) error {
 	var f *os.File
 	var err error
@@ -29,7 +33,7 @@ func starTree(nbtrees int, nbtips int, output string) error {
 			return err
 		}
 		for _, e := range t.Edges() {
-			e.SetLength(gostats.Exp(1.0 / setlengthmean))
+			e.SetLength(gostats.Exp(1.0 / startreeLengthMean))
 		}
 
 		f.WriteString(t.Newick() + "\n")
